@@ -261,17 +261,49 @@ func ruleC07_1(c *Ctx) {
 	for _, ev := range evals {
 		a := ev.Common().Args
 		c.check(org(a[1]) == "p1", R, fn, "evaluate is applied to the certificate under test", ev.Pos(), "p1", "evaluate receives "+org(a[1]))
-		switch x := resolve(a[2], ev).(type) {
-		case *ssa.MakeClosure:
-			name := x.Fn.(*ssa.Function).Name()
-			name = strings.TrimSuffix(name, "$bound")
-			passed[name] = true
-			if len(x.Bindings) > 0 && org(x.Bindings[0]) != "p0" {
-				c.bad(R, fn, "bound receiver of "+name, ev.Pos(), "the check is bound to "+org(x.Bindings[0])+", not to the constraint under evaluation")
+		// the check function: given directly, or an element of a slice literal that a range loop walks completely
+		var vals []ssa.Value
+		raw := a[2]
+		if u, isU := raw.(*ssa.UnOp); !isU || u.Op != token.MUL {
+			raw = resolve(a[2], ev)
+		} else if _, isIA := u.X.(*ssa.IndexAddr); !isIA {
+			raw = resolve(a[2], ev)
+		}
+		switch x := raw.(type) {
+		case *ssa.UnOp:
+			if ia, ok := x.X.(*ssa.IndexAddr); ok && wholeSliceIndex(ia) {
+				base := ia.X
+				if sl, isSl := base.(*ssa.Slice); isSl {
+					base = sl.X
+				}
+				if al, ok := addrRoot(base).(*ssa.Alloc); ok {
+					for _, r := range *al.Referrers() {
+						if ia2, ok := r.(*ssa.IndexAddr); ok {
+							for _, rr := range *ia2.Referrers() {
+								if st, ok := rr.(*ssa.Store); ok {
+									vals = append(vals, resolve(st.Val, st))
+								}
+							}
+						}
+					}
+				}
 			}
-		case *ssa.Call:
-			if g := x.Call.StaticCallee(); g != nil {
-				passed[g.Name()] = true
+		default:
+			vals = append(vals, x)
+		}
+		for _, v := range vals {
+			switch x := v.(type) {
+			case *ssa.MakeClosure:
+				name := x.Fn.(*ssa.Function).Name()
+				name = strings.TrimSuffix(name, "$bound")
+				passed[name] = true
+				if len(x.Bindings) > 0 && org(x.Bindings[0]) != "p0" {
+					c.bad(R, fn, "bound receiver of "+name, ev.Pos(), "the check is bound to "+org(x.Bindings[0])+", not to the constraint under evaluation")
+				}
+			case *ssa.Call:
+				if g := x.Call.StaticCallee(); g != nil {
+					passed[g.Name()] = true
+				}
 			}
 		}
 	}
@@ -280,24 +312,44 @@ func ruleC07_1(c *Ctx) {
 	}
 	// chain: every evaluate is applied to the same accumulator, error() of it is returned
 	okChain := true
-	for _, ev := range evals {
-		recv := resolve(ev.Common().Args[0], ev)
-		if k, ok := recv.(*ssa.Call); ok {
-			n := calleeName(k)
-			if n != "in_toto.newCheckResult" && n != "(*in_toto.checkResult).evaluate" {
-				okChain = false
+	// accumulator values: newCheckResult(), results of evaluate, and phis of those (the loop form)
+	var isAcc func(v ssa.Value, depth int) bool
+	isAcc = func(v ssa.Value, depth int) bool {
+		if depth > 4 {
+			return false
+		}
+		switch x := v.(type) {
+		case *ssa.Call:
+			n := calleeName(x)
+			return n == "in_toto.newCheckResult" || n == "(*in_toto.checkResult).evaluate"
+		case *ssa.Phi:
+			for _, e := range x.Edges {
+				if !isAcc(e, depth+1) {
+					return false
+				}
 			}
-		} else {
+			return len(x.Edges) > 0
+		}
+		return false
+	}
+	for _, ev := range evals {
+		if !isAcc(resolve(ev.Common().Args[0], ev), 0) {
 			okChain = false
 		}
 	}
 	for _, r := range returnsOf(chk) {
 		pc, _ := producer(r.Results[0], r)
-		if pc == nil || calleeName(pc) != "(*in_toto.checkResult).error" {
+		if pc == nil || calleeName(pc) != "(*in_toto.checkResult).error" || !isAcc(resolve(pc.Common().Args[0], pc), 0) {
 			okChain = false
 		}
 	}
-	c.check(okChain && len(evals) >= 6, R, fn, "one accumulator, its error() is returned", chk.Pos(), fmt.Sprintf("%d evaluate calls chained on newCheckResult()", len(evals)), "the checks are not accumulated into one result whose error() is returned")
+	nChecks := 0
+	for _, n := range c07Checks {
+		if passed[n] {
+			nChecks++
+		}
+	}
+	c.check(okChain && nChecks >= 6, R, fn, "one accumulator, its error() is returned", chk.Pos(), fmt.Sprintf("%d evaluate calls chained on newCheckResult()", len(evals)), "the checks are not accumulated into one result whose error() is returned")
 	// field coverage
 	for _, n := range c07Checks {
 		m := c.lookup("(in_toto.CertificateConstraint)." + n)
